@@ -68,6 +68,10 @@ pub struct Case {
     pub scripts: Vec<Script>,
     pub write_sched: Vec<u32>,
     pub baton: Vec<u8>,
+    /// tier A, single sender: additionally cut the response at EVERY offset before the end of the attributes, under
+    /// each of the three framings (fault enumeration); every one of those sends must return Err
+    #[serde(default)]
+    pub cut_sweep: bool,
 }
 
 #[derive(Clone, Copy)]
@@ -376,7 +380,56 @@ impl C11 {
         }
     }
 
+    /// every cut offset x every framing for the first script (tier A, single sender)
+    fn cut_sweep(&self, case: &Case, rep: &mut RunReport) {
+        let port = dummy_port();
+        let client = Self::client_blocking(&case.cfg, port);
+        let base = &case.scripts[0];
+        let mut sends = 0u64;
+        for framing in [Framing::ContentLength, Framing::Chunked(vec![7]), Framing::Chunked(vec![]), Framing::CloseDelimited] {
+            let mut s0 = base.clone();
+            s0.status = 200;
+            s0.framing = framing.clone();
+            s0.reset_request_after = None;
+            s0.fault = None;
+            let head_len = s0.render().head_len as u32;
+            let points: Vec<FaultAt> = (0..head_len).map(FaultAt::Head).chain((0..s0.ipp.len() as u32).map(FaultAt::Body)).collect();
+            for at in points {
+                let mut s = s0.clone();
+                s.fault = Some(RespFault { at, kind: RespFaultKind::Cut });
+                let mut scripts = BTreeMap::new();
+                scripts.insert(1u32, s.clone());
+                let net = MemNet::new(scripts, case.write_sched.clone(), false);
+                let core = SimCore::new();
+                let (req, _exp, _src) = Self::build_request(&case.senders[0], 1, &core, false);
+                ipp::verif::set_blocking_connector(Some(Arc::new(SimConnector { net: net.clone(), baton: None })));
+                let r = guarded(|| client.send(req));
+                ipp::verif::set_blocking_connector(None);
+                sends += 1;
+                let res = Self::finish_blocking(r);
+                if !matches!(res, SendResult::Err(_)) {
+                    let class = if matches!(res, SendResult::Panic(_)) { "client-panicked" } else { "cut-response-accepted" };
+                    rep.violate(class, format!("cut sweep: response cut at {at:?} under framing {framing:?} (before the end of the attributes), yet send returned {}", res.short()));
+                    let mut single = case.clone();
+                    single.cut_sweep = false;
+                    single.scripts[0] = s;
+                    rep.reduced = serde_json::to_value(&single).ok();
+                    rep.count("tierA.cut_sweep_sends", sends);
+                    return;
+                }
+            }
+        }
+        rep.count("tierA.cut_sweeps_completed", 1);
+        rep.count("tierA.cut_sweep_sends", sends);
+    }
+
     fn run_mem(&self, case: &Case, record: bool, rep: &mut RunReport) {
+        if case.cut_sweep && case.senders.len() == 1 {
+            self.cut_sweep(case, rep);
+            if rep.violation.is_some() {
+                return;
+            }
+        }
         let port = dummy_port();
         let n = case.senders.len();
         let scripts: BTreeMap<u32, Script> = case.scripts.iter().enumerate().map(|(i, s)| (i as u32 + 1, s.clone())).collect();
@@ -702,7 +755,8 @@ impl Prop for C11 {
         let nw = rng.usize(0, 4);
         let write_sched = (0..nw).map(|_| *rng.pick(&[1u32, 2, 7, 64, 1000, 100_000])).collect();
         let baton = (0..rng.usize(0, 64)).map(|_| rng.byte()).collect();
-        Case { transport, client, cfg, senders, scripts, write_sched, baton }
+        let cut_sweep = transport == Transport::Mem && n == 1 && rng.chance(1, 100);
+        Case { transport, client, cfg, senders, scripts, write_sched, baton, cut_sweep }
     }
 
     fn run(&self, case: &Case, record: bool) -> RunReport {
@@ -805,7 +859,7 @@ impl Prop for C11 {
     }
 
     fn rule(&self) -> String {
-        "Tier A (7 of 8 runs): the real IppClient::send (ureq agent, header loop, streaming chunked body, IppParser on the response reader) over an in-memory transport installed through the cfg(ipp_verif) hook; every transport read/write is scripted: short writes, response segmentation, framing (content-length / chunked with seeded chunk sizes / close-delimited), status (200 or 18 4xx/5xx codes), one fault (cut, I/O error kind or read time-out at an offset classified as HTTP head / IPP header / attributes / trailing data; or reset while the request is being written); request payload from a fragmented SimRead with EINTR; 1 of 6 runs has 2-6 concurrent senders through one shared client under the seeded baton scheduler (one thread runs at a time, every transport call is a yield point). Tier B (every 8th run): IppClient and AsyncIppClient against the same scripted printer over real loopback TCP, plus the two request_timeout clauses: a stalled printer, and a printer that drips its answer with gaps shorter than the timeout but a total of ~4x the timeout. Oracles: exactly one POST per send to path+query with Host, content-type, every custom header, Basic credentials; de-chunked body == to_bytes() of the sent instance ++ payload; 2xx + complete => Ok equal to the unfragmented parse of the scripted IPP bytes and identical trailing data; 4xx/5xx, failure before the end of the attributes, reset during the request, or stall / slow drip beyond the timeout => Err; failure inside trailing data => attributes equal and trailing data a prefix; each concurrent sender gets the response carrying its own token. distinct_nontrivial = distinct hashes of the transport call sequence (+ baton order) [tier A] or of (configuration, scripts, outcome classes) [tier B] among runs with a payload, a fault, an error status or several senders."
+        "Tier A (7 of 8 runs): the real IppClient::send (ureq agent, header loop, streaming chunked body, IppParser on the response reader) over an in-memory transport installed through the cfg(ipp_verif) hook; every transport read/write is scripted: short writes, response segmentation, framing (content-length / chunked with seeded chunk sizes / close-delimited), status (200 or 18 4xx/5xx codes), one fault (cut, I/O error kind or read time-out at an offset classified as HTTP head / IPP header / attributes / trailing data; or reset while the request is being written); request payload from a fragmented SimRead with EINTR; 1 of 100 single-sender runs additionally cuts the response at EVERY offset before the end of the attributes under each framing ('cut_sweep_sends'); 1 of 6 runs has 2-6 concurrent senders through one shared client under the seeded baton scheduler (one thread runs at a time, every transport call is a yield point). Tier B (every 8th run): IppClient and AsyncIppClient against the same scripted printer over real loopback TCP, plus the two request_timeout clauses: a stalled printer, and a printer that drips its answer with gaps shorter than the timeout but a total of ~4x the timeout. Oracles: exactly one POST per send to path+query with Host, content-type, every custom header, Basic credentials; de-chunked body == to_bytes() of the sent instance ++ payload; 2xx + complete => Ok equal to the unfragmented parse of the scripted IPP bytes and identical trailing data; 4xx/5xx, failure before the end of the attributes, reset during the request, or stall / slow drip beyond the timeout => Err; failure inside trailing data => attributes equal and trailing data a prefix; each concurrent sender gets the response carrying its own token. distinct_nontrivial = distinct hashes of the transport call sequence (+ baton order) [tier A] or of (configuration, scripts, outcome classes) [tier B] among runs with a payload, a fault, an error status or several senders."
             .into()
     }
     fn assumptions(&self) -> Vec<String> {
